@@ -19,6 +19,8 @@ type IntsBuilder struct {
 	FinalAppsMap syslutil.StrSet
 	Deps         syslutil.StrSet
 	DepsOut      []AppDependency
+	// pass-through endpoints already walked; cuts cycles among pass-through applications
+	walked syslutil.StrSet
 }
 
 func sortedSlice(endpts map[string]*sysl.Endpoint) []string {
@@ -138,6 +140,14 @@ func (b *IntsBuilder) MyCallers(sourceApp, epname string, t *sysl.Statement) {
 
 func (b *IntsBuilder) WalkPassthrough(appname, epname string) {
 	if b.Passthroughs.Contains(appname) {
+		key := appname + " <- " + epname
+		if b.walked == nil {
+			b.walked = syslutil.StrSet{}
+		}
+		if b.walked.Contains(key) {
+			return
+		}
+		b.walked.Insert(key)
 		endpt := b.M.GetApps()[appname].GetEndpoints()[epname]
 		ProcessCalls(appname, epname, endpt.GetStmt(), b.ProcessExcludeAndPassthrough)
 	}
